@@ -498,9 +498,21 @@ def jEvent (j : Json) : E Event := do
     pure (Gene.Props.Refine.eventOfGVal source id v)
   | none => jEventFields j
 
+/-- the binary64 bit pattern of a value (the inverse of `F64.ofBits` up to the sign of zero and the NaN payload) -/
+def fvalBits : FVal → String
+  | .nan => "nan"
+  | .pinf => "7ff0000000000000"
+  | .ninf => "fff0000000000000"
+  | .fin k =>
+    let a := k.natAbs
+    let mag := if a < 2^52 then a else
+      let e := a.log2 - 52
+      (e + 1) * 2^52 + (a / 2^e - 2^52)
+    hex16 (mag + (if k < 0 then 2^63 else 0))
+
 def optValueJson : Option FieldValue → Json
   | none => Json.null
-  | some (.num (.float _)) => Json.mkObj [("f", Json.null)]
+  | some (.num (.float x)) => Json.mkObj [("f", Json.str (fvalBits x))]
   | some v => valueJson v
 
 /-- load template documents, then rule documents, build the engine, scan the events in order -/
